@@ -2416,3 +2416,50 @@ func H_C01_constFromMapped(n int) {
 	verifCover("constant outputs of a mapped call resolved")
 	verifAssert(okO, "C01: the top-level output holds the constant once per element")
 }
+
+//verif:stub (*github.com/martian-lang/martian/martian/core.Metadata).readRawSafe
+func vrReadRawSafe(self *Metadata, name MetadataFileName) (string, error) {
+	return "it failed\n", nil
+}
+
+// H_C06_dynamicForkError(n, fork, part): WORK is mapped over an array of n
+// elements which GEN produces at run time.  mrp loaded the metadata of every
+// node when it started (Pipestance.LoadMetadata: collectMetadatas for the one
+// placeholder fork); GEN finishes, the forks of WORK are expanded, and the
+// split (part 1), the join (part 2) or the fork itself (part 0: outputs which
+// do not validate) of fork `fork` fails, while each of the other forks has
+// finished or is still running.
+//
+//	C06: the stage is failed, and the error mrp reports (Node.getFatalError)
+//	     names the failing job of that stage and the path of its _errors file.
+func H_C06_dynamicForkError(n, fork, part int) {
+	w := vrGraph()
+	vrOuts = map[*Metadata]LazyArgumentMap{}
+	// Pipestance.LoadMetadata at start-up
+	for _, f := range w.work.forks {
+		f.collectMetadatas()
+	}
+	xs := make([]json.RawMessage, n)
+	for i := range xs {
+		xs[i] = vrDigit("element")
+	}
+	vrOuts[w.gen.forks[0].metadata] = LazyArgumentMap{"xs": vrArray(xs), "v": json.RawMessage("1")}
+	w.work.expandForks(true)
+	if fork >= len(w.work.forks) || len(w.work.forks) != n {
+		return
+	}
+	f := w.work.forks[fork]
+	md := []*Metadata{f.metadata, f.split_metadata, f.join_metadata}[part]
+	md.contents[Errors] = struct{}{}
+	// every other fork has finished, or is still running
+	for _, g := range w.work.forks {
+		if g != f && verifBool("another fork has finished") {
+			g.metadata.contents[CompleteFile] = struct{}{}
+		}
+	}
+	verifCover("a job of a dynamically expanded fork failed")
+	verifAssert(w.work.getState() == Failed, "C06: a failing job of a mapped stage fails the stage")
+	fqname, _, _, _, kind, paths := w.work.getFatalError()
+	verifAssert(fqname == md.fqname, "C06: the reported error names the failing job, also for forks created while mrp was running")
+	verifAssert(kind == Errors && len(paths) > 0 && paths[0] == md.MetadataFilePath(Errors), "C06: the reported error points at the failing job's _errors file")
+}
